@@ -1,2 +1,375 @@
-//! w_merkle: world helpers (filled in by the properties that need it).
+//! w_merkle: Merkle whitelist world.  Real trees (rs_merkle + SHA-256 / BLAKE3 truncated to
+//! 16 bytes, sorted pair, as the repo's SortingSha256Hasher test helper), a log of every
+//! (input, digest) pair the tree builder computed (the model's H is that finite table),
+//! the two real whitelist contracts on a simulated chain, Coq printing of byte strings.
 #![allow(dead_code, unused_imports)]
+use crate::chain::{self, App};
+use crate::util::*;
+use cosmwasm_std::{coin, coins, Addr, Timestamp};
+use cw_multi_test::Executor;
+use rs_merkle::{Hasher, MerkleTree};
+use std::cell::RefCell;
+use std::collections::BTreeMap;
+
+pub const CREATOR: &str = "creator";
+pub const ADMIN2: &str = "admin2";
+pub const STRANGER: &str = "stranger";
+pub const FEE: u128 = 1_000_000_000; // documented creation fee of both Merkle whitelists
+
+thread_local! {
+    /// every hash computed through the logging hashers since the last `take_log`
+    static LOG: RefCell<Vec<(Vec<u8>, Vec<u8>)>> = RefCell::new(Vec::new());
+}
+pub fn take_log() -> Vec<(Vec<u8>, Vec<u8>)> {
+    LOG.with(|l| std::mem::take(&mut *l.borrow_mut()))
+}
+fn log(input: &[u8], out: &[u8]) {
+    LOG.with(|l| l.borrow_mut().push((input.to_vec(), out.to_vec())));
+}
+
+pub fn sha256(data: &[u8]) -> [u8; 32] {
+    use sha2::{Digest, Sha256};
+    let mut h = Sha256::new();
+    h.update(data);
+    let out: [u8; 32] = h.finalize().into();
+    log(data, &out);
+    out
+}
+pub fn blake16(data: &[u8]) -> [u8; 16] {
+    let full = blake3::hash(data);
+    let out: [u8; 16] = full.as_bytes()[..16].try_into().unwrap();
+    log(data, &out);
+    out
+}
+
+/// rs_merkle hasher: SHA-256, pair sorted before concatenation (the repo's test helper
+/// `SortingSha256Hasher`), odd node promoted (`None => *left`)
+#[derive(Clone)]
+pub struct SortSha;
+impl Hasher for SortSha {
+    type Hash = [u8; 32];
+    fn hash(data: &[u8]) -> [u8; 32] {
+        sha256(data)
+    }
+    fn concat_and_hash(left: &[u8; 32], right: Option<&[u8; 32]>) -> [u8; 32] {
+        match right {
+            Some(r) => {
+                let mut both = [left, r];
+                both.sort_unstable();
+                let mut c: Vec<u8> = both[0].to_vec();
+                c.extend_from_slice(both[1]);
+                Self::hash(&c)
+            }
+            None => *left,
+        }
+    }
+}
+/// the same with BLAKE3 truncated to 16 bytes (what tiered-whitelist-merkletree verifies)
+#[derive(Clone)]
+pub struct SortBlake;
+impl Hasher for SortBlake {
+    type Hash = [u8; 16];
+    fn hash(data: &[u8]) -> [u8; 16] {
+        blake16(data)
+    }
+    fn concat_and_hash(left: &[u8; 16], right: Option<&[u8; 16]>) -> [u8; 16] {
+        match right {
+            Some(r) => {
+                let mut both = [left, r];
+                both.sort_unstable();
+                let mut c: Vec<u8> = both[0].to_vec();
+                c.extend_from_slice(both[1]);
+                Self::hash(&c)
+            }
+            None => *left,
+        }
+    }
+}
+
+/// a built tree: root, per-position proofs (raw digests, bottom-up) and the hash table
+pub struct Built {
+    pub blake: bool,
+    pub members: Vec<String>,
+    pub root: Vec<u8>,
+    pub proofs: Vec<Vec<Vec<u8>>>,
+    pub table: Vec<(Vec<u8>, Vec<u8>)>,
+}
+impl Built {
+    pub fn l(&self) -> usize {
+        if self.blake {
+            16
+        } else {
+            32
+        }
+    }
+    pub fn root_hex(&self) -> String {
+        hex::encode(&self.root)
+    }
+    pub fn proof_hex(&self, i: usize) -> Vec<String> {
+        self.proofs[i].iter().map(hex::encode).collect()
+    }
+}
+
+/// build with rs_merkle; `all_proofs` false => proofs only for `want` positions
+pub fn build_tree(blake: bool, members: &[String], want: Option<&[usize]>) -> Built {
+    let _ = take_log();
+    let idx: Vec<usize> = match want {
+        Some(w) => w.to_vec(),
+        None => (0..members.len()).collect(),
+    };
+    let mut proofs = vec![vec![]; members.len()];
+    let root;
+    if blake {
+        let leaves: Vec<[u8; 16]> = members.iter().map(|m| blake16(m.as_bytes())).collect();
+        let t = MerkleTree::<SortBlake>::from_leaves(&leaves);
+        root = t.root().expect("root").to_vec();
+        for &i in &idx {
+            proofs[i] = t.proof(&[i]).proof_hashes().iter().map(|h| h.to_vec()).collect();
+        }
+    } else {
+        let leaves: Vec<[u8; 32]> = members.iter().map(|m| sha256(m.as_bytes())).collect();
+        let t = MerkleTree::<SortSha>::from_leaves(&leaves);
+        root = t.root().expect("root").to_vec();
+        for &i in &idx {
+            proofs[i] = t.proof(&[i]).proof_hashes().iter().map(|h| h.to_vec()).collect();
+        }
+    }
+    let mut table = take_log();
+    table.sort();
+    table.dedup();
+    Built { blake, members: members.to_vec(), root, proofs, table }
+}
+
+/// the (input, digest) pairs a verifier needs for (member, proof): the leaf digest and the
+/// digest of the sorted concatenation at every step that has an L-byte element.  Elements that are not valid hex of L bytes
+/// stop the chain (the contract errors there).
+pub fn fold_table(blake: bool, member: &str, proof: &[String]) -> Vec<(Vec<u8>, Vec<u8>)> {
+    let l = if blake { 16 } else { 32 };
+    let _ = take_log();
+    let h = |d: &[u8]| -> Vec<u8> {
+        if blake {
+            blake16(d).to_vec()
+        } else {
+            sha256(d).to_vec()
+        }
+    };
+    let mut acc = h(member.as_bytes());
+    for s in proof {
+        let Ok(b) = hex::decode(s) else { break };
+        if b.len() != l {
+            break;
+        }
+        // only the order a sorting verifier hashes: a model that concatenated the other way
+        // round would miss the table, which the correspondence check reports
+        let (lo, hi) = if acc <= b { (acc.clone(), b.clone()) } else { (b.clone(), acc.clone()) };
+        let mut c = lo;
+        c.extend_from_slice(&hi);
+        acc = h(&c);
+    }
+    let mut t = take_log();
+    t.sort();
+    t.dedup();
+    t
+}
+
+// ---------- Coq printing ----------
+/// `(B [k; c1; c2; ...]%uint63)`: big-endian 7-byte chunks as primitive integer literals, the
+/// first chunk holding k = 1..7 bytes (Coq 8.16 reads only primitive integers quickly)
+pub fn coq_bytes(b: &[u8]) -> String {
+    if b.is_empty() {
+        return "(B [])".to_string();
+    }
+    let k = if b.len() % 7 == 0 { 7 } else { b.len() % 7 };
+    let mut parts = vec![k.to_string()];
+    let mut i = 0;
+    let mut take = k;
+    while i < b.len() {
+        let mut x: u64 = 0;
+        for &c in &b[i..i + take] {
+            x = (x << 8) | c as u64;
+        }
+        parts.push(x.to_string());
+        i += take;
+        take = 7;
+    }
+    format!("(B [{}]%uint63)", parts.join("; "))
+}
+pub fn coq_str(s: &str) -> String {
+    coq_bytes(s.as_bytes())
+}
+pub fn coq_strs(v: &[String]) -> String {
+    coq_list(&v.iter().map(|s| coq_str(s)).collect::<Vec<_>>())
+}
+pub fn coq_table(t: &[(Vec<u8>, Vec<u8>)]) -> String {
+    coq_list(&t.iter().map(|(i, d)| format!("({}, {})", coq_bytes(i), coq_bytes(d))).collect::<Vec<_>>())
+}
+pub fn coq_res_bool(r: &Result<bool, String>) -> String {
+    match r {
+        Ok(b) => format!("(Ok {})", coq_bool(*b)),
+        Err(_) => "Err".to_string(),
+    }
+}
+
+// ---------- the chain ----------
+pub fn fresh_app() -> App {
+    let mut app = chain::new_app();
+    for who in [CREATOR, ADMIN2, STRANGER] {
+        chain::mint_coins(&mut app, who, 1_000_000 * FEE, NATIVE);
+    }
+    app
+}
+
+#[derive(Clone, Debug, serde::Serialize, serde::Deserialize, PartialEq, Eq, PartialOrd, Ord)]
+pub struct FlatInit {
+    pub root: String,
+    pub uri: Option<String>,
+    pub start: u64,
+    pub end: u64,
+    pub limit: u32,
+    pub admins: Vec<String>,
+    pub mutable: bool,
+    pub funds: Vec<(String, u128)>,
+}
+pub fn flat_default(root: &str, now: u64) -> FlatInit {
+    FlatInit {
+        root: root.to_string(),
+        uri: None,
+        start: now + 1_000_000_000_000,
+        end: now + 2_000_000_000_000,
+        limit: 1,
+        admins: vec![CREATOR.to_string()],
+        mutable: true,
+        funds: vec![(NATIVE.to_string(), FEE)],
+    }
+}
+pub fn instantiate_flat(app: &mut App, code: u64, i: &FlatInit) -> Result<Addr, String> {
+    let msg = whitelist_mtree::msg::InstantiateMsg {
+        merkle_root: i.root.clone(),
+        merkle_tree_uri: i.uri.clone(),
+        start_time: Timestamp::from_nanos(i.start),
+        end_time: Timestamp::from_nanos(i.end),
+        mint_price: coin(1_000_000, NATIVE),
+        per_address_limit: i.limit,
+        admins: i.admins.clone(),
+        admins_mutable: i.mutable,
+    };
+    let funds: Vec<_> = i.funds.iter().map(|(d, a)| coin(*a, d.clone())).collect();
+    match catch(|| app.instantiate_contract(code, Addr::unchecked(CREATOR), &msg, &funds, "wl-mtree", Some(CREATOR.to_string()))) {
+        Ok(Ok(a)) => Ok(a),
+        Ok(Err(e)) => Err(format!("{:#}", e)),
+        Err(p) => Err(p),
+    }
+}
+
+#[derive(Clone, Debug, serde::Serialize, serde::Deserialize, PartialEq, Eq, PartialOrd, Ord)]
+pub struct StageSpec {
+    pub start: u64,
+    pub end: u64,
+    pub denom: String,
+    pub limit: u32,
+}
+#[derive(Clone, Debug, serde::Serialize, serde::Deserialize, PartialEq, Eq, PartialOrd, Ord)]
+pub struct TieredInit {
+    pub roots: Vec<String>,
+    pub uris: Option<Vec<String>>,
+    pub stages: Vec<StageSpec>,
+    pub admins: Vec<String>,
+    pub mutable: bool,
+    pub funds: Vec<(String, u128)>,
+}
+pub fn stage_of(s: &StageSpec, i: usize) -> tiered_whitelist_merkletree::state::Stage {
+    tiered_whitelist_merkletree::state::Stage {
+        name: format!("stage{}", i),
+        start_time: Timestamp::from_nanos(s.start),
+        end_time: Timestamp::from_nanos(s.end),
+        mint_price: coin(1_000_000, s.denom.clone()),
+        per_address_limit: s.limit,
+        mint_count_limit: None,
+    }
+}
+pub fn instantiate_tiered(app: &mut App, code: u64, i: &TieredInit) -> Result<Addr, String> {
+    let msg = tiered_whitelist_merkletree::msg::InstantiateMsg {
+        stages: i.stages.iter().enumerate().map(|(k, s)| stage_of(s, k)).collect(),
+        merkle_roots: i.roots.clone(),
+        merkle_tree_uris: i.uris.clone(),
+        admins: i.admins.clone(),
+        admins_mutable: i.mutable,
+    };
+    let funds: Vec<_> = i.funds.iter().map(|(d, a)| coin(*a, d.clone())).collect();
+    match catch(|| app.instantiate_contract(code, Addr::unchecked(CREATOR), &msg, &funds, "twl-mtree", Some(CREATOR.to_string()))) {
+        Ok(Ok(a)) => Ok(a),
+        Ok(Err(e)) => Err(format!("{:#}", e)),
+        Err(p) => Err(p),
+    }
+}
+
+/// HasMember on either contract: Ok(answer) or Err (query error or panic)
+pub fn has_member(app: &App, addr: &Addr, tiered: bool, member: &str, proof: &[String]) -> Result<bool, String> {
+    let r = catch(|| {
+        if tiered {
+            app.wrap()
+                .query_wasm_smart::<tiered_whitelist_merkletree::msg::HasMemberResponse>(
+                    addr.clone(),
+                    &tiered_whitelist_merkletree::msg::QueryMsg::HasMember { member: member.to_string(), proof_hashes: proof.to_vec() },
+                )
+                .map(|r| r.has_member)
+        } else {
+            app.wrap()
+                .query_wasm_smart::<whitelist_mtree::msg::HasMemberResponse>(
+                    addr.clone(),
+                    &whitelist_mtree::msg::QueryMsg::HasMember { member: member.to_string(), proof_hashes: proof.to_vec() },
+                )
+                .map(|r| r.has_member)
+        }
+    });
+    match r {
+        Ok(Ok(b)) => Ok(b),
+        Ok(Err(e)) => Err(e.to_string()),
+        Err(p) => Err(p),
+    }
+}
+pub fn query_root_flat(app: &App, addr: &Addr) -> Result<String, String> {
+    match catch(|| {
+        app.wrap().query_wasm_smart::<whitelist_mtree::msg::MerkleRootResponse>(addr.clone(), &whitelist_mtree::msg::QueryMsg::MerkleRoot {})
+    }) {
+        Ok(Ok(r)) => Ok(r.merkle_root),
+        Ok(Err(e)) => Err(e.to_string()),
+        Err(p) => Err(p),
+    }
+}
+pub fn query_roots_tiered(app: &App, addr: &Addr) -> Result<Vec<String>, String> {
+    match catch(|| {
+        app.wrap().query_wasm_smart::<tiered_whitelist_merkletree::msg::MerkleRootResponse>(
+            addr.clone(),
+            &tiered_whitelist_merkletree::msg::QueryMsg::MerkleRoots {},
+        )
+    }) {
+        Ok(Ok(r)) => Ok(r.merkle_roots),
+        Ok(Err(e)) => Err(e.to_string()),
+        Err(p) => Err(p),
+    }
+}
+
+/// a proof element is well formed when it is exactly 2*L characters, all of them hex digits
+/// (written from the property text: "malformed hashes"; shares nothing with the model)
+pub fn wellformed_hash(s: &str, l: usize) -> bool {
+    s.len() == 2 * l && s.bytes().all(|c| c.is_ascii_hexdigit())
+}
+
+const BECH: &[u8] = b"qpzry9x8gf2tvdw0s3jn54khce6mua7l";
+/// a 44-character stars1... address-shaped string (bech32 alphabet, no checksum: MockApi
+/// does not check one); `i` makes it unique, `salt` varies the rest
+pub fn stars_addr(i: u64, salt: u64) -> String {
+    let mut s = String::from("stars1");
+    let mut r = Rng::new(salt.wrapping_mul(1_000_003) ^ i);
+    // 8 characters carry the index, 30 are pseudo-random
+    let mut k = i;
+    for _ in 0..8 {
+        s.push(BECH[(k % 32) as usize] as char);
+        k /= 32;
+    }
+    for _ in 0..30 {
+        s.push(BECH[r.below(32) as usize] as char);
+    }
+    s
+}
